@@ -163,6 +163,47 @@ theorem lemma_inv_drain (c : Core) (h : Inv c) (hw : c.wpc = .idle) (f : FPc)
         · simp at hx
       in_warmup := by intro _; simp [drain] }
 
+/-- `doWarmup` between `warmup.drained` and `warmup.registered`: the taken routes go into the trees -/
+theorem lemma_inv_warm_register (c : Core) (h : Inv c) (hw : c.wpc = .drained) :
+    Inv { c.taken.foldl registerRoute { c with taken := [], wpc := .drained } with wpc := .registered } := by
+  have hwu : c.warmedUp = true := h.warmed_iff.2 (by simp [hw])
+  have hpend := h.warm_pending hwu
+  have hf := lemma_foldl_fields c.taken { c with taken := [], wpc := .drained }
+  have hT' := lemma_foldl_table c.taken { c with taken := [], wpc := .drained } ⟨h.regd_iff, h.table_flag⟩
+  have hR := lemma_foldl_regd c.taken { c with taken := [], wpc := .drained }
+  generalize List.foldl registerRoute { c with taken := [], wpc := .drained } c.taken = d at hf hT' hR
+  obtain ⟨f1, f2, f3, f4, _, f6, f7, f8, f9, _⟩ := hf
+  simp only at f1 f2 f3 f4 f6 f7 f8 f9 hR
+  exact
+    { serving_frozen := by show d.serving = d.frozen; rw [f6, f7]; exact h.serving_frozen
+      frozen_iff := by show d.frozen = true ↔ d.fpc ≠ .idle; rw [f7, f9]; exact h.frozen_iff
+      warmed_iff := by show d.warmedUp = true ↔ WPc.registered ≠ .idle; rw [f8]; simp [hwu]
+      cold := by show d.warmedUp = false → _; rw [f8]; intro hx; simp [hwu] at hx
+      warm_pending := by show d.warmedUp = true → d.pending = []; rw [f2]; intro _; exact hpend
+      taken_nil := by show _ → d.taken = []; rw [f3]; intro _; rfl
+      objs_iff := by
+        intro r
+        show r ∈ d.objs ↔ (r ∈ d.pending ∨ r ∈ d.taken ∨ r ∈ d.regd)
+        rw [f1, f2, f3, hR]
+        have := h.objs_iff r
+        rw [this]
+        simp [hpend]
+      regd_iff := hT'.1
+      table_flag := by
+        intro r b hb
+        have := hT'.2 r b hb
+        rw [f4] at this
+        show b = d.cons.contains r
+        rw [f4]
+        exact this
+      tail_done := by
+        show (d.fpc = .tail ∨ d.fpc = .done) → _
+        rw [f9]
+        intro hx
+        have := h.tail_done hx
+        simp [hw] at this
+      in_warmup := by intro _; simp }
+
 theorem lemma_inv_step (c : Core) (op : Op) (h : Inv c) : Inv (c.step op) := by
   cases op with
   | enterFreeze =>
@@ -171,30 +212,40 @@ theorem lemma_inv_step (c : Core) (op : Op) (h : Inv c) : Inv (c.step op) := by
     · exact lemma_inv_ctl c h true true .flags c.wpc rfl (by simp) h.warmed_iff h.taken_nil (by simp) (by simp)
     · exact h
   | freezeCallWarmup =>
-    simp only [Core.step]
-    split
-    · rename_i hf
-      have hfr : c.frozen = true := lemma_frozen_of c h (by simp [hf])
-      have hsv : c.serving = true := by rw [h.serving_frozen]; exact hfr
+    by_cases hf : c.fpc = .flags
+    · have hfr : c.frozen = true := lemma_frozen_of c h (by simp [hf])
+      have hwi := h.warmed_iff
+      have htn := h.taken_nil
       cases hw : c.wpc with
-      | idle => exact lemma_inv_drain c h hw .inWarmup (Or.inr ⟨rfl, hf⟩)
+      | idle =>
+        simp only [Core.step, hf, hw, if_true]
+        exact lemma_inv_drain c h hw .inWarmup (Or.inr ⟨rfl, hf⟩)
       | done =>
-        have := lemma_inv_ctl c h c.serving c.frozen .tail c.wpc h.serving_frozen (by simp [hfr])
-          h.warmed_iff h.taken_nil (by intro _; exact hw) (by simp)
-        simpa using this
+        simp only [Core.step, hf, hw, if_true]
+        rw [hw] at hwi htn
+        have := lemma_inv_ctl c h c.serving c.frozen .tail .done h.serving_frozen (by simp [hfr])
+          hwi htn (by simp) (by simp)
+        exact this
       | drained =>
-        have := lemma_inv_ctl c h c.serving c.frozen .inWarmup c.wpc h.serving_frozen (by simp [hfr])
-          h.warmed_iff h.taken_nil (by simp) (by intro _; simp [hw])
-        simpa using this
+        simp only [Core.step, hf, hw, if_true]
+        rw [hw] at hwi htn
+        have := lemma_inv_ctl c h c.serving c.frozen .inWarmup .drained h.serving_frozen (by simp [hfr])
+          hwi htn (by simp) (by simp)
+        exact this
       | registered =>
-        have := lemma_inv_ctl c h c.serving c.frozen .inWarmup c.wpc h.serving_frozen (by simp [hfr])
-          h.warmed_iff h.taken_nil (by simp) (by intro _; simp [hw])
-        simpa using this
+        simp only [Core.step, hf, hw, if_true]
+        rw [hw] at hwi htn
+        have := lemma_inv_ctl c h c.serving c.frozen .inWarmup .registered h.serving_frozen (by simp [hfr])
+          hwi htn (by simp) (by simp)
+        exact this
       | compiled =>
-        have := lemma_inv_ctl c h c.serving c.frozen .inWarmup c.wpc h.serving_frozen (by simp [hfr])
-          h.warmed_iff h.taken_nil (by simp) (by intro _; simp [hw])
-        simpa using this
-    · exact h
+        simp only [Core.step, hf, hw, if_true]
+        rw [hw] at hwi htn
+        have := lemma_inv_ctl c h c.serving c.frozen .inWarmup .compiled h.serving_frozen (by simp [hfr])
+          hwi htn (by simp) (by simp)
+        exact this
+    · simp only [Core.step, hf, if_false]
+      exact h
   | enterWarmup =>
     simp only [Core.step]
     split
@@ -202,70 +253,38 @@ theorem lemma_inv_step (c : Core) (op : Op) (h : Inv c) : Inv (c.step op) := by
       exact lemma_inv_drain c h hw c.fpc (Or.inl rfl)
     · exact h
   | warmupStep =>
-    simp only [Core.step]
+    have hwi := h.warmed_iff
     cases hw : c.wpc with
-    | idle => exact h
-    | done => exact h
+    | idle => simp only [Core.step, hw]; exact h
+    | done => simp only [Core.step, hw]; exact h
     | drained =>
-      have hwu : c.warmedUp = true := h.warmed_iff.2 (by simp [hw])
-      have hpend := h.warm_pending hwu
-      have hf := lemma_foldl_fields c.taken { c with taken := [] }
-      have hT' := lemma_foldl_table c.taken { c with taken := [] } ⟨h.regd_iff, h.table_flag⟩
-      exact
-        { serving_frozen := by show (List.foldl _ _ _).serving = (List.foldl _ _ _).frozen
-                               rw [hf.2.2.2.2.2.1, hf.2.2.2.2.2.2.1]; exact h.serving_frozen
-          frozen_iff := by show (List.foldl _ _ _).frozen = true ↔ (List.foldl _ _ _).fpc ≠ .idle
-                           rw [hf.2.2.2.2.2.2.1, hf.2.2.2.2.2.2.2.2.1]; exact h.frozen_iff
-          warmed_iff := by show (List.foldl _ _ _).warmedUp = true ↔ WPc.registered ≠ .idle
-                           rw [hf.2.2.2.2.2.2.2.1]; simp [hwu]
-          cold := by show (List.foldl _ _ _).warmedUp = false → _
-                     rw [hf.2.2.2.2.2.2.2.1]; intro hx; simp [hwu] at hx
-          warm_pending := by show (List.foldl _ _ _).warmedUp = true → (List.foldl _ _ _).pending = []
-                             rw [hf.2.1]; intro _; exact hpend
-          taken_nil := by show _ → (List.foldl _ _ _).taken = []
-                          rw [hf.2.2.1]; intro _; rfl
-          objs_iff := by
-            intro r
-            show r ∈ (List.foldl _ _ _).objs ↔
-              (r ∈ (List.foldl _ _ _).pending ∨ r ∈ (List.foldl _ _ _).taken ∨ r ∈ (List.foldl _ _ _).regd)
-            rw [hf.1, hf.2.1, hf.2.2.1, lemma_foldl_regd]
-            have := h.objs_iff r
-            simp only
-            rw [this]
-            simp [hpend]
-          regd_iff := hT'.1
-          table_flag := by
-            intro r b hb
-            have := hT'.2 r b hb
-            rw [hf.2.2.2.1] at this
-            exact this
-          tail_done := by show ((List.foldl _ _ _).fpc = .tail ∨ (List.foldl _ _ _).fpc = .done) → _
-                          rw [hf.2.2.2.2.2.2.2.2.1]
-                          intro hx
-                          have := h.tail_done hx
-                          simp [hw] at this
-          in_warmup := by intro _; simp }
+      simp only [Core.step, hw]
+      exact lemma_inv_warm_register c h hw
     | registered =>
+      simp only [Core.step, hw]
+      rw [hw] at hwi
       have := lemma_inv_ctl c h c.serving c.frozen c.fpc .compiled h.serving_frozen h.frozen_iff
-        (by have := h.warmed_iff; simp [hw] at this; simp [this])
+        (by simp at hwi; simp [hwi])
         (by intro _; exact h.taken_nil (by simp [hw]))
         (by intro hx; have := h.tail_done hx; simp [hw] at this) (by simp)
-      simpa using this
+      exact this
     | compiled =>
+      simp only [Core.step, hw]
+      rw [hw] at hwi
       have hfi := h.frozen_iff
       have := lemma_inv_ctl c h c.serving c.frozen (if c.fpc = .inWarmup then .tail else c.fpc) .done
         h.serving_frozen
         (by by_cases hi : c.fpc = .inWarmup
             · simp [hi] at hfi ⊢; exact hfi
             · simpa [hi] using hfi)
-        (by have := h.warmed_iff; simp [hw] at this; simp [this])
+        (by simp at hwi; simp [hwi])
         (by intro _; exact h.taken_nil (by simp [hw]))
         (by simp)
         (by intro hx
             by_cases hi : c.fpc = .inWarmup
             · simp [hi] at hx
-            · simp [hi] at hx; exact absurd hx hi)
-      simpa using this
+            · simp only [hi, if_false] at hx)
+      exact this
   | freezeFinish =>
     simp only [Core.step]
     split
@@ -273,7 +292,7 @@ theorem lemma_inv_step (c : Core) (op : Op) (h : Inv c) : Inv (c.step op) := by
       have hfr : c.frozen = true := lemma_frozen_of c h (by simp [hf])
       have := lemma_inv_ctl c h c.serving c.frozen .done c.wpc h.serving_frozen (by simp [hfr])
         h.warmed_iff h.taken_nil (by intro _; exact h.tail_done (Or.inl hf)) (by simp)
-      simpa using this
+      exact this
     · exact h
   | register r =>
     simp only [Core.step]
@@ -316,6 +335,7 @@ theorem lemma_inv_step (c : Core) (op : Op) (h : Inv c) : Inv (c.step op) := by
               table_flag := by
                 intro x b hb
                 have := hT'.2 x b hb
+                rw [hf.2.2.2.1]
                 rw [hf.2.2.2.1] at this
                 exact this
               tail_done := by rw [hf.2.2.2.2.2.2.2.2.1, hf.2.2.2.2.2.2.2.2.2]; exact h.tail_done
@@ -330,7 +350,7 @@ theorem lemma_inv_step (c : Core) (op : Op) (h : Inv c) : Inv (c.step op) := by
               objs_iff := by
                 intro x
                 have := h.objs_iff x
-                simp only [List.mem_cons, List.mem_append, List.mem_singleton]
+                simp only [List.mem_cons, List.mem_append, List.not_mem_nil, or_false]
                 rw [this]
                 constructor
                 · rintro (rfl | h1 | h1 | h1)
@@ -390,7 +410,7 @@ theorem lemma_inv_step (c : Core) (op : Op) (h : Inv c) : Inv (c.step op) := by
                   · exact Or.inr (Or.inr h1.1)
               regd_iff := by
                 intro x
-                simp only [List.mem_cons, List.mem_append, List.mem_filter, List.mem_singleton,
+                simp only [List.mem_cons, List.mem_append, List.mem_filter, List.not_mem_nil, or_false,
                   Prod.mk.injEq, bne_iff_ne, ne_eq]
                 constructor
                 · rintro (rfl | ⟨hx, hne⟩)
@@ -402,8 +422,8 @@ theorem lemma_inv_step (c : Core) (op : Op) (h : Inv c) : Inv (c.step op) := by
                   · exact Or.inl rfl
               table_flag := by
                 intro x b
-                simp only [List.mem_append, List.mem_filter, List.mem_singleton, Prod.mk.injEq,
-                  bne_iff_ne, ne_eq, List.contains_cons]
+                simp only [List.mem_append, List.mem_filter, List.mem_cons, List.not_mem_nil, or_false,
+                  Prod.mk.injEq, bne_iff_ne, ne_eq, List.contains_cons]
                 rintro (⟨hb, hne⟩ | ⟨rfl, rfl⟩)
                 · have := h.table_flag x b hb
                   rw [this]
@@ -423,10 +443,11 @@ theorem lemma_inv_step (c : Core) (op : Op) (h : Inv c) : Inv (c.step op) := by
                 have := h.table_flag x b hb
                 rw [this]
                 have hx : x ∈ c.regd := (h.regd_iff x).2 ⟨b, hb⟩
-                have : (x == r) = false := by
-                  simp only [beq_eq_false_iff_ne, ne_eq]
-                  intro e; exact hreg' (e ▸ hx)
-                simp [this]
+                have hne : x ≠ r := fun e => hreg' (e ▸ hx)
+                show c.cons.contains x = (r :: c.cons).contains x
+                rw [List.contains_cons]
+                have : (x == r) = false := by simpa using hne
+                rw [this, Bool.false_or]
               tail_done := h.tail_done, in_warmup := h.in_warmup }
   | setName r =>
     simp only [Core.step]
@@ -469,7 +490,8 @@ theorem lemma_lookup_done (c : Core) (h : Inv c) (hd : c.fpc = .done) (t : Route
     have : c.objs.contains t = false := by
       simp only [List.contains_eq_mem, decide_eq_false_iff_not]
       exact fun hx => hno (hobj.1 hx)
-    simp [this]
+    rw [this]
+    rfl
   | some e =>
     obtain ⟨x, b⟩ := e
     have hmem : (x, b) ∈ c.table := List.mem_of_find?_eq_some hf
